@@ -16,8 +16,23 @@ using namespace VATA;
 // SEL: bit0 = sim, bits 1..2: 0 up, 1 down non-recursive, 2 down recursive, 3 down recursive + implication cache
 extern "C" void harness(void)
 {
-  U::SymAut<NA> A; A.draw();
-  U::SymAut<NB> B; B.draw();
+  // AMASK / BMASK restrict the candidate rules (sub-universe); ATRI / BTRI select the triangular sub-universe
+#ifndef AMASK
+#define AMASK (~0ul)
+#endif
+#ifndef BMASK
+#define BMASK (~0ul)
+#endif
+#ifdef ATRI
+  U::SymAut<NA> A; A.draw(U::SymAut<NA>::triangular());
+#else
+  U::SymAut<NA> A; A.draw(AMASK);
+#endif
+#ifdef BTRI
+  U::SymAut<NB> B; B.draw(U::SymAut<NB>::triangular());
+#else
+  U::SymAut<NB> B; B.draw(BMASK);
+#endif
 #ifdef KF_EXCLUDE
   KF_EXCLUDE
 #endif
